@@ -1,5 +1,256 @@
 package main
 
-// checkFrame: frame obligations of the function under verification (filled in below).
-func (r *Run) checkFrame(env *SpecEnv, entry, out *State) {
+// Frame obligations: everything allocated before the call that the function's
+// `modifies` clause does not cover is unchanged when the function returns.
+
+import (
+	"fmt"
+	"go/types"
+	"strings"
+
+	"golang.org/x/tools/go/ssa"
+)
+
+type frameItem struct {
+	kind string // "obj" (whole object), "path", "heap" (all objects of T), "elems", "arrays", "mapof", "maps", "ident"
+	T    types.Type
+	ref  Term
+	loc  *Loc
+	key  string // for ident: heap key
+	mt   *types.Map
+}
+
+func (r *Run) frameItems(env *SpecEnv, fc *FuncContract) []frameItem {
+	var items []frameItem
+	for i, m := range fc.Modifies {
+		func() {
+			defer func() {
+				if x := recover(); x != nil {
+					if se, ok := x.(specErr); ok {
+						panic(execErr{fmt.Sprintf("modifies %q: %s", fc.ModSrc[i], se.msg)})
+					}
+					panic(x)
+				}
+			}()
+			switch x := m.(type) {
+			case EUnary:
+				if x.Op == "*" {
+					v := r.eval(env, x.X)
+					if v.isAddr {
+						items = append(items, frameItem{kind: "path", loc: v.loc, T: v.loc.T})
+						return
+					}
+					items = append(items, frameItem{kind: "obj", T: deref(v.T), ref: v.t})
+					return
+				}
+			case ECall:
+				if id, ok := x.Fun.(EIdent); ok {
+					switch id.Name {
+					case "heap":
+						items = append(items, frameItem{kind: "heap", T: r.specTypeArg(env, x.Args[0])})
+						return
+					case "elems":
+						v := r.eval(env, x.Args[0])
+						et := types.Unalias(v.T).Underlying().(*types.Slice).Elem()
+						items = append(items, frameItem{kind: "elems", T: et, ref: app("Int", "sl_arr", v.t)})
+						return
+					case "arrays":
+						items = append(items, frameItem{kind: "arrays", T: r.specTypeArg(env, x.Args[0])})
+						return
+					case "mapof":
+						v := r.eval(env, x.Args[0])
+						items = append(items, frameItem{kind: "mapof", mt: types.Unalias(v.T).Underlying().(*types.Map), ref: v.t})
+						return
+					case "maps":
+						K := r.specTypeArg(env, x.Args[0])
+						V := r.specTypeArg(env, x.Args[1])
+						items = append(items, frameItem{kind: "maps", mt: types.NewMap(K, V)})
+						return
+					}
+				}
+			case EIdent:
+				// ghost or global: find its key by evaluating it and matching the heap key name
+				if env.pkg != nil {
+					if g, ok := r.eng.ghosts[env.pkg.Path()+"::"+x.Name]; ok {
+						items = append(items, frameItem{kind: "ident", key: "ghost|" + g.PkgPath + "::" + g.Name})
+						return
+					}
+				}
+				if g, ok := r.eng.ghosts["::"+x.Name]; ok {
+					items = append(items, frameItem{kind: "ident", key: "ghost|::" + g.Name})
+					return
+				}
+				if env.pkg != nil {
+					if o := env.pkg.Scope().Lookup(x.Name); o != nil {
+						if sp := r.eng.prog.Package(o.Pkg()); sp != nil {
+							if g, ok := sp.Members[o.Name()].(*ssa.Global); ok {
+								items = append(items, frameItem{kind: "ident", key: r.eng.heapKeyGlobal(g)})
+								return
+							}
+						}
+					}
+				}
+			case ESel:
+				loc := r.evalLoc(env, x)
+				items = append(items, frameItem{kind: "path", loc: loc, T: loc.T})
+				return
+			}
+			specFail("unsupported modifies item")
+		}()
+	}
+	return items
+}
+
+// frameGoal: the frame condition for heap key k between the entry state and st, for the skolem/bound variable x.
+// ok=false when the key is entirely covered by the modifies clause (nothing to prove).
+func (r *Run) frameGoal(items []frameItem, entry, st *State, k string, x Term) (Term, bool) {
+	e0 := r.heapGet(entry, k)
+	e1 := r.heapGet(st, k)
+	wm0 := r.heapGet(entry, r.eng.heapKeyAlloc())
+	pre := and(app("Bool", "<=", x, wm0), not(eq(x, intLit(0))))
+	switch {
+	case strings.HasPrefix(k, "H|"):
+		exp := sel(e0, x)
+		cur := sel(e1, x)
+		for _, it := range items {
+			switch it.kind {
+			case "heap":
+				if "H|"+typeKey(it.T) == k {
+					return tTrue, false
+				}
+			case "obj":
+				if "H|"+typeKey(it.T) == k {
+					exp = ite(eq(x, it.ref), cur, exp)
+				}
+			case "path":
+				if it.loc.kind == rootHeap && "H|"+typeKey(it.loc.T) == k {
+					np := r.updPath(exp, it.loc.path, r.readPathOf(cur, it.loc.path))
+					exp = ite(eq(x, it.loc.ref), np, exp)
+				}
+			}
+		}
+		return implies(pre, eq(cur, exp)), true
+	case strings.HasPrefix(k, "A|"):
+		exp := sel(e0, x)
+		cur := sel(e1, x)
+		for _, it := range items {
+			switch it.kind {
+			case "arrays":
+				if "A|"+typeKey(it.T) == k {
+					return tTrue, false
+				}
+			case "elems":
+				if "A|"+typeKey(it.T) == k {
+					exp = ite(eq(x, it.ref), cur, exp)
+				}
+			case "path":
+				if it.loc.kind == rootElem && "A|"+typeKey(it.loc.T) == k {
+					exp = ite(eq(x, app("Int", "sl_arr", it.loc.ref)), cur, exp)
+				}
+			}
+		}
+		return implies(pre, eq(cur, exp)), true
+	case strings.HasPrefix(k, "MH|"), strings.HasPrefix(k, "MV|"), strings.HasPrefix(k, "ML|"):
+		exp := sel(e0, x)
+		cur := sel(e1, x)
+		rest := k[3:]
+		for _, it := range items {
+			if it.mt == nil || typeKey(it.mt.Key())+"|"+typeKey(it.mt.Elem()) != rest {
+				continue
+			}
+			if it.kind == "maps" {
+				return tTrue, false
+			} else if it.kind == "mapof" {
+				exp = ite(eq(x, it.ref), cur, exp)
+			}
+		}
+		return implies(pre, eq(cur, exp)), true
+	}
+	// G| and ghost|
+	for _, it := range items {
+		if it.kind == "ident" && it.key == k {
+			return tTrue, false
+		}
+	}
+	return eq(e1, e0), true
+}
+
+func frameKeySkipped(k string) bool {
+	return k == "alloc" || strings.HasPrefix(k, "iter|")
+}
+
+func (r *Run) checkFrame(penv *SpecEnv, entry, out *State) {
+	fc := r.contract
+	if fc == nil || r.probing > 0 {
+		return
+	}
+	items := r.topFrameItems(penv, entry)
+	paths := r.topRets
+	var finals []*State
+	if len(paths) > 1 && len(paths) <= 16 {
+		for _, rr := range paths {
+			finals = append(finals, rr.st)
+		}
+	} else {
+		finals = []*State{out}
+	}
+	changed := map[string]bool{}
+	for _, st := range finals {
+		for k, t := range st.heaps {
+			if r.heapGet(entry, k).S != t.S {
+				changed[k] = true
+			}
+		}
+	}
+	for _, k := range sortedKeys(changed) {
+		if frameKeySkipped(k) {
+			continue
+		}
+		d := r.eng.heapDecls[k]
+		name := fmt.Sprintf("%s#frame:%s", r.funcLabel(), d.name)
+		var sts []*State
+		var goals []Term
+		x := r.havoc("fx", "Int")
+		for _, st := range finals {
+			if r.heapGet(entry, k).S == r.heapGet(st, k).S {
+				continue
+			}
+			g, ok := r.frameGoal(items, entry, st, k, x)
+			if !ok {
+				continue
+			}
+			sts = append(sts, st)
+			goals = append(goals, g)
+		}
+		if len(sts) == 0 {
+			continue
+		}
+		r.obligeMulti(sts, goals, "frame", name, fc.Tags, "nothing outside the modifies clause changes: "+d.name, true, r.top.Pos())
+	}
+}
+
+// topFrameItems evaluates the modifies clause of the function under verification in its entry state (cached).
+func (r *Run) topFrameItems(env *SpecEnv, entry *State) []frameItem {
+	if r.frameItemsDone {
+		return r.frameItemsC
+	}
+	eenv := env.inState(entry)
+	eenv.old = entry
+	eenv.frame = nil
+	r.frameItemsC = r.frameItems(eenv, r.contract)
+	r.frameItemsDone = true
+	return r.frameItemsC
+}
+
+// readPathOf selects a path inside a struct/array value.
+func (r *Run) readPathOf(base Term, path []PathEl) Term {
+	t := base
+	for _, pe := range path {
+		if pe.field >= 0 {
+			t = r.eng.u.fieldSel(pe.contT, pe.field, t)
+		} else {
+			t = sel(t, pe.idx)
+		}
+	}
+	return t
 }
